@@ -7,6 +7,7 @@ import (
 	"math"
 	"math/rand"
 
+	"github.com/golang/geo/r2"
 	"github.com/golang/geo/s1"
 	"github.com/golang/geo/s2"
 
@@ -27,6 +28,8 @@ func Run(m *mon.M) {
 	m.Stream("point", m.N(40000, 10000000), pointTarget)
 	m.Stream("edge", m.N(20000, 5000000), edgeTarget)
 	m.Stream("cell", m.N(12000, 3000000), cellTarget)
+	m.Require("padded.shrink_checked", 3000)
+	m.Stream("padded", m.N(15000, 2000000), padded)
 }
 
 func hp(p s2.Point) ref.H { return ref.HV(gen.V(p)) }
@@ -421,5 +424,120 @@ func cellTarget(c *mon.Case) {
 				return
 			}
 		}
+	}
+}
+
+// padded: PaddedCell agrees with the cell it pads (bounds, children, curve order) and ShrinkToFit returns
+// the smallest cell containing every descendant whose padded bound meets the rectangle.
+func padded(c *mon.Case) {
+	r := c.R
+	level := r.Intn(29)
+	id := gen.RandCellID(r, level)
+	cell := s2.CellFromCellID(id)
+	uv := cell.BoundUV()
+	size := uv.X.Length()
+	padding := []float64{0, 1e-15, size * 1e-3, size * 0.3, size * 2}[r.Intn(5)]
+	pc := s2.PaddedCellFromCellID(id, padding)
+	c.Count("padded.checked", 1)
+	c.Distinct(uint64(id), math.Float64bits(padding))
+	det := func(extra map[string]any) any {
+		d := map[string]any{"cell": id.ToToken(), "level": level, "padding": padding}
+		for k, v := range extra {
+			d[k] = v
+		}
+		return d
+	}
+	if c.I < 2 {
+		c.Sample(det(nil))
+	}
+	same := func(a, b r2.Rect) bool {
+		return a.X.Lo == b.X.Lo && a.X.Hi == b.X.Hi && a.Y.Lo == b.Y.Lo && a.Y.Hi == b.Y.Hi
+	}
+	if pc.CellID() != id || pc.Level() != level || pc.Padding() != padding {
+		c.Violation("PaddedCell/identity/wrong-answer", "CellID/Level/Padding do not return the construction arguments", det(nil))
+	}
+	if want := uv.ExpandedByMargin(padding); !same(pc.Bound(), want) {
+		c.Violation("PaddedCell/Bound/wrong-answer", fmt.Sprintf("Bound %v differs from the cell's (u,v) bound expanded by the padding %v", pc.Bound(), want), det(nil))
+	}
+	if pc.Center() != cell.Center() && pc.Center().Distance(cell.Center()) > 1e-15 {
+		c.Violation("PaddedCell/Center/wrong-answer", "Center differs from the cell's centre", det(nil))
+	}
+	if !id.IsLeaf() {
+		kids := id.Children()
+		var prevExit s2.Point
+		for pos := 0; pos < 4; pos++ {
+			i, j := pc.ChildIJ(pos)
+			ch := s2.PaddedCellFromParentIJ(pc, i, j)
+			if ch.CellID() != kids[pos] {
+				c.Violation("PaddedCell/child-id/wrong-answer", fmt.Sprintf("child at traversal position %d is %s, the cell id's child is %s", pos, ch.CellID().ToToken(), kids[pos].ToToken()), det(nil))
+				continue
+			}
+			direct := s2.PaddedCellFromCellID(kids[pos], padding)
+			if !same(ch.Bound(), direct.Bound()) {
+				c.Violation("PaddedCell/child-bound/wrong-answer", fmt.Sprintf("bound of the child built from its parent %v differs from the bound built from the child id %v", ch.Bound(), direct.Bound()), det(map[string]any{"pos": pos}))
+			}
+			if !ch.Bound().Contains(pc.Middle()) {
+				c.Violation("PaddedCell/Middle/wrong-answer", "Middle() is not inside the padded bound of every child", det(map[string]any{"pos": pos}))
+			}
+			if ch.EntryVertex() != direct.EntryVertex() || ch.ExitVertex() != direct.ExitVertex() {
+				c.Violation("PaddedCell/entry-exit/wrong-answer", "entry/exit vertex of the child built from its parent differs from the child built from its id", det(map[string]any{"pos": pos}))
+			}
+			if pos > 0 && ch.EntryVertex().Distance(prevExit) > 1e-15 {
+				c.Violation("PaddedCell/curve-order/wrong-answer", fmt.Sprintf("child %d does not enter where child %d exits", pos, pos-1), det(nil))
+			}
+			prevExit = ch.ExitVertex()
+		}
+	}
+	// ShrinkToFit
+	b := pc.Bound()
+	cx := b.X.Lo + r.Float64()*b.X.Length()
+	cy := b.Y.Lo + r.Float64()*b.Y.Length()
+	hx := size * gen.LogUniform(r, 1e-4, 2)
+	hy := size * gen.LogUniform(r, 1e-4, 2)
+	rect := r2.RectFromPoints(r2.Point{X: cx - hx*r.Float64(), Y: cy - hy*r.Float64()}, r2.Point{X: cx + hx*r.Float64(), Y: cy + hy*r.Float64()})
+	if !rect.Intersects(b) {
+		return
+	}
+	got := pc.ShrinkToFit(rect)
+	L := level + 4
+	if L > 30 {
+		L = 30
+	}
+	var D []s2.CellID
+	near := false
+	for d := id.ChildBeginAtLevel(L); d != id.ChildEndAtLevel(L); d = d.Next() {
+		db := s2.PaddedCellFromCellID(d, padding).Bound()
+		if db.Intersects(rect) {
+			D = append(D, d)
+		}
+		// a rectangle side within rounding of a descendant's padded boundary is a tie: not asserted
+		for _, e := range [][2]float64{{db.X.Lo, rect.X.Hi}, {db.X.Hi, rect.X.Lo}, {db.Y.Lo, rect.Y.Hi}, {db.Y.Hi, rect.Y.Lo}} {
+			if math.Abs(e[0]-e[1]) < 1e-14 {
+				near = true
+			}
+		}
+	}
+	if len(D) == 0 || near {
+		return
+	}
+	c.Count("padded.shrink_checked", 1)
+	sd := det(map[string]any{"rect": fmt.Sprint(rect), "result": got.ToToken(), "descendants_meeting_rect": len(D), "descendant_level": L})
+	for _, d := range D {
+		if !got.Contains(d) && !(len(D) == 1 && d.Contains(got)) {
+			c.Violation("PaddedCell/ShrinkToFit/misses-descendant/wrong-answer", fmt.Sprintf("ShrinkToFit returned %s, which does not contain descendant %s whose padded bound meets the rectangle", got.ToToken(), d.ToToken()), sd)
+			return
+		}
+	}
+	lca := D[0]
+	for _, d := range D[1:] {
+		for !lca.Contains(d) {
+			lca = lca.Parent(lca.Level() - 1)
+		}
+	}
+	if len(D) > 1 && got != lca {
+		c.Count("padded.shrink_multi", 1)
+		c.Violation("PaddedCell/ShrinkToFit/not-smallest/wrong-answer", fmt.Sprintf("ShrinkToFit returned %s (level %d); the smallest cell containing all %d level-%d descendants that meet the rectangle is %s (level %d)", got.ToToken(), got.Level(), len(D), L, lca.ToToken(), lca.Level()), sd)
+	} else if len(D) == 1 && !(D[0].Contains(got)) {
+		c.Violation("PaddedCell/ShrinkToFit/not-smallest/wrong-answer", fmt.Sprintf("ShrinkToFit returned %s; only descendant %s meets the rectangle, so the answer must lie inside it", got.ToToken(), D[0].ToToken()), sd)
 	}
 }
